@@ -10,6 +10,8 @@ import (
 // MapKeys replaces the key sequence of `range m` for Go maps: keys are visited in a
 // canonical (sorted) order by default; with Config.EnvChoices every other order is an
 // explored alternative (any order is allowed by the language).
+//
+//go:norace
 func MapKeys[M ~map[K]V, K comparable, V any](m M) []K {
 	keys := make([]K, 0, len(m))
 	for k := range m {
